@@ -199,11 +199,11 @@ def cases(rng, tier, worker, nworkers):
     if worker == 0:
         for f in sorted(glob.glob(os.path.join(os.path.dirname(__file__), '..', '..', 'corpus', 'dispatch', '*.json'))):
             yield dict(json.load(open(f))['case'], prop=PROP)
-    n = 1200 if tier == 'quick' else 30000 // nworkers
+    n = 1200 if tier == 'quick' else 240000 // nworkers
     for i in range(n):
         yield D.gen_case(rng, PROP, faults=FAULTS or (i % 5 == 0), size=8 if i % 3 else 14)
     # the changes-only test itself: Comparator.is_equal against the model, Python == against the spec
-    for i in range(2500 if tier == 'quick' else 60000 // nworkers):
+    for i in range(2500 if tier == 'quick' else 400000 // nworkers):
         a = _gen_pv(rng, 2, plain_only=(i % 3 == 0))
         yield {'prop': 'C03', 'kind': 'equal', 'a': a, 'b': _mutate(rng, a)}
 
